@@ -218,6 +218,13 @@ def sysRates (vars : σ → α) (rs : List (Reaction σ α)) (keys? : Option (Li
 def defaultCstr (frKey : σ) (feedName : σ → σ) (substanceKeys : List σ) : Cstr σ :=
   { frKey := frKey, fc := substanceKeys.map fun sk => (sk, feedName sk) }
 
+/-- `ReactionSystem.rates(..., ratexs=l)`: `for rxn, ratex in zip(self.rxns, ratexs)` — a `ratexs` list SHORTER than the
+    reaction list silently drops the remaining reactions (surplus entries are ignored); entries `None` mean "the reaction's
+    own rate expression" -/
+def sysRatesRatexs (vars : σ → α) (rs : List (Reaction σ α)) (nRatexs : Nat) (keys? : Option (List σ))
+    (cstr? : Option (Cstr σ)) : List (σ × α) :=
+  sysRates vars (rs.take nRatexs) keys? cstr?
+
 /-- reading of a rate dictionary as a function on substances: an absent key contributes zero -/
 def valueAt (d : List (σ × α)) (s : σ) : α := dgetD d s ((0 : Nat) : α)
 
@@ -261,6 +268,8 @@ inductive Err where
   | attributeError
   /-- `variables[k]` for a missing key -/
   | keyError
+  /-- subscripting a generator (`rates[idx_r]` when `rates` is the generator returned by `law_of_mass_action_rates`) -/
+  | typeError
   deriving DecidableEq, Repr
 
 section ArrayPath
@@ -328,6 +337,30 @@ def lawOfMassActionRatesK [Sub α] (conc : List α) (keys : List σ) : List (Rea
       match lawOfMassActionRatesK conc keys rs with
       | .error e => .error e
       | .ok xs => .ok (x :: xs)
+
+/-- the same with the DEFAULT `variables=None`: the `MassAction` branch evaluates `variables.items()` and dies with an
+    `AttributeError` (the code as it is; the plain branch never touches `variables`) -/
+def lawOfMassActionRatesDefaultVars [Sub α] (conc : List α) (keys : List σ) : List (Reaction σ α × ParamKind) → Except Err (List α)
+  | [] => .ok []
+  | (r, kind) :: rs =>
+    let head : Except Err α := match kind with
+      | .plain => lawRate conc keys r
+      | .massAction => .error .attributeError
+      | .otherRateExpr => .error .valueError
+    match head with
+    | .error e => .error e
+    | .ok x =>
+      match lawOfMassActionRatesDefaultVars conc keys rs with
+      | .error e => .error e
+      | .ok xs => .ok (x :: xs)
+
+/-- `dCdt_list(rsys, rates)` when `rates` is the GENERATOR returned by `law_of_mass_action_rates` (the literal expression
+    `dCdt_list(rsys, law_of_mass_action_rates(c, rsys))`): the first `rates[idx_r]` is a `TypeError`; with no substance or no
+    reaction the loops never subscript it and `[0] * ns` is returned -/
+def dCdtListOfGenerator (keys : List σ) (rs : List (Reaction σ α)) : Except Err (List α) :=
+  match keys, rs with
+  | _ :: _, _ :: _ => .error .typeError
+  | _, _ => .ok (keys.map fun _ => ((0 : Nat) : α))
 
 /-- inner loop of `dCdt_list` for one substance (ode.py:107-110): `f[idx_s] += net_stoichs[idx_r, idx_s] * rates[idx_r]`
     for `idx_r in range(rsys.nr)`; `rates` shorter than the reaction list is an `IndexError`, surplus entries are ignored -/
